@@ -39,7 +39,7 @@ CHECKS = {
     "C03": dict(
         engine="E2", cat="model_checking",
         technique="exhaustive enumeration of structured seed alphabets (1-, 2-, 3-bit patterns, byte probes, dense chains) against readable.c-style ISAAC / ISAAC-64 models over 3..4000 blocks; seed_from_u64(0) against the unseeded reference",
-        text="Both generators are compared word by word with independent models of Jenkins' reference code for every seed of the alphabets over all 768 words of the first three blocks, for hundreds of blocks on a subset, and for the unseeded reference; all 256 values of both indirection indices are confirmed exercised. Added since: the same comparison through the bare block cores IsaacCore / Isaac64Core, 2^14 / 2^18-block runs, and lock-step through the rare events found on the reference models.",
+        text="Both generators are compared word by word with independent models of Jenkins' reference code for every seed of the alphabets over all 768 words of the first three blocks, for hundreds of blocks on a subset, and for the unseeded reference; all 256 values of both indirection indices are confirmed exercised. Added since: the same comparison through the bare block cores IsaacCore / Isaac64Core, 2^14 / 2^18-block runs, and lock-step through the rare events found on the reference models. Round 9: the reference ISAAC step also records value coincidences inside a step (a looked-up word equal to the old word of the rewritten slot in another slot, an unchanged rewrite, equal or zero look-ups, a zero accumulator; about 2^-32 per step each), visited in lock-step like the stream events.",
         note="models validated against reference vectors each run; seeds outside the alphabet not enumerated",
         ref="4/C03"),
     "C05": dict(
@@ -117,7 +117,7 @@ CHECKS = {
     "C19": dict(
         engine="E5", cat="model_checking",
         technique="exhaustive enumeration of operation-granularity interleavings x thread assignments of 2-3 generator instances on real OS threads under a token-passing scheduler; oracle = the same instance history run alone in a fresh child process; Send/Sync by a compile-time probe",
-        text="For 176 configurations (same-type seed pairs incl. zero seeds, cross-type pairs, zero seeds of increasing state size, JitterRng pairs incl. test_timer, three-instance runs) every interleaving of the [construct, op, op] histories and every assignment of steps to two threads is executed; each instance's observations equal its solo run in a fresh process. All generator types are Send + Sync (compile-time probe). Added since: re-entrant constructions (the source handed to from_rng constructs another generator before / after delivering its bytes), overlapping operations (another instance runs a whole operation inside timer read #k of a JitterRng operation, every k, on the same thread and on another thread), JitterRng instances whose timers are zero-sized fn items of different types, arithmetic coincidences between the deltas of two instances, long stuck runs on one instance. Round 7: clone families (operations on a clone, incl. set_rounds / jumps / test_timer, must not change what the original returns, and vice versa).",
+        text="For 176 configurations (same-type seed pairs incl. zero seeds, cross-type pairs, zero seeds of increasing state size, JitterRng pairs incl. test_timer, three-instance runs) every interleaving of the [construct, op, op] histories and every assignment of steps to two threads is executed; each instance's observations equal its solo run in a fresh process. All generator types are Send + Sync (compile-time probe). Added since: re-entrant constructions (the source handed to from_rng constructs another generator before / after delivering its bytes), overlapping operations (another instance runs a whole operation inside timer read #k of a JitterRng operation, every k, on the same thread and on another thread), JitterRng instances whose timers are zero-sized fn items of different types, arithmetic coincidences between the deltas of two instances, long stuck runs on one instance. Round 7: clone families (operations on a clone, incl. set_rounds / jumps / test_timer, must not change what the original returns, and vice versa). Round 9: same-type pairs of different seeds that collide under weak digests (swapped words, h*31+w over 32-bit / 64-bit words and bytes, equal prefix / suffix), 385 configurations in all.",
         note="operation granularity is complete because no generator path contains a synchronisation operation (inventory printed); JitterRng::new() (wall clock) excluded; schedules are serialised, so the memory model is not exercised",
         ref="4/C19"),
 }
